@@ -17,8 +17,8 @@ static double PREC_K_D = 64, PREC_K_L = 64;   // C09 constants (calibrated, see 
 struct MaxStat { double max = 0; long n = 0; std::string where; };
 static std::map<std::string, MaxStat> g_ratio;     // "<sol>|<ev>|<prec>" -> max |lib-ref|/(u e)
 static std::map<std::string, MaxStat> g_dl;        // double vs long double
-static long g_ref_nonfinite = 0;
-static long g_fd = 0; static bool fd_check = true;
+static long g_ref_nonfinite = 0, g_loose_overflow = 0;
+static long g_fd = 0, g_fd_inconclusive = 0; static bool fd_check = true;
 static long g_cbchecks = 0, g_invchecks = 0;
 static long g_cmp = 0, g_skipped_branch = 0, g_nonfinite = 0, g_known = 0, g_dlcmp = 0, g_badidx = 0;
 static std::set<std::string> g_emitted;            // violation keys already emitted in this shard (first witness is kept, the rest counted)
@@ -61,19 +61,71 @@ static void run_solution(const orc::Sol& sol, const SolSpec& spec, uint64_t seed
     evs.push_back(ev_index(id));
   }
   long double prev_pt[4] = {0, 0, 0, 0}; bool have_prev = false;
+  // defaults as the library reports them right after masa_init (not available when the handle is only re-selected)
+  std::map<std::string, long double> defv;
+  if (!reselect) for (auto& n : names) defv[n] = (long double)masa_get_param<S>(n);
+  std::map<std::string, long double> setv;          // value last passed to masa_set_param (or reported after masa_init_param), per name
+  orc::Ctx base; base.sol = sol.name; base.nx = sol.nargs;
+  bool loose_state = false;
   for (long cs = case0; cs < case0 + ncases; cs++) {
     Rng r(seed, strhash(sol.name) * 1000003ULL + (uint64_t)cs * 2 + (sizeof(S) == 8 ? 0 : 1));
-    orc::Draw dr;
-    sol.draw(r, dr, names);
-    // a quarter of the vectors carry special values (exactly 0, +-1, a small integer, two parameters equal) where admissible
-    std::string special;
-    if (r.below(4) == 0) { orc::specialise(r, sol, dr, names, special); if (!special.empty()) LOG.count("parameter_vectors_with_special_values", 1); }
-    for (auto& n : names) if (!dr.v.count(n)) harness_fail("generator for " + sol.name + " did not draw parameter " + n);
-    std::map<std::string, long double> setv;
-    orc::Ctx base; base.sol = sol.name; base.nx = sol.nargs;
-    bool nontrivial = true; std::set<long double> seen;
-    for (auto& n : names) {
-      S val = (S)dr.v[n];
+    // case kinds: fresh (every parameter redrawn) | delta (1-3 parameters changed, the rest kept) | defaults (masa_init_param) |
+    // partial (1-3 independent parameters back to their default values) | stretch (fresh, then groups of parameters scaled by powers of ten)
+    int kind = 0;
+    if (setv.size() == names.size()) { int m = r.below(16); kind = m < 7 ? 0 : m < 11 ? 1 : m < 12 ? 2 : m < 14 ? 3 : 4; }
+    if (kind == 3 && defv.empty()) kind = 1;
+    if (kind == 4 && !sol.stretch) kind = 0;
+    std::vector<std::pair<std::string, long double>> changes;
+    std::string special, stretched;
+    bool nontrivial = false;
+    if (kind == 0 || kind == 4) {
+      orc::Draw dr;
+      sol.draw(r, dr, names);
+      // a quarter of the fresh vectors carry special values (exactly 0, +-1, a small integer, two parameters equal, a zeroed family) where admissible
+      if (kind == 0 && r.below(4) == 0) { orc::specialise(r, sol, dr, names, special); if (!special.empty()) LOG.count("parameter_vectors_with_special_values", 1); }
+      if (kind == 4) { orc::stretch_draw(r, sol, dr, names, stretched); if (stretched.empty()) kind = 0; else LOG.count("parameter_vectors_stretched", 1); }
+      for (auto& n : names) { if (!dr.v.count(n)) harness_fail("generator for " + sol.name + " did not draw parameter " + n); changes.push_back({n, dr.v[n]}); }
+      nontrivial = true;
+    } else if (kind == 1) {
+      orc::Draw dr;
+      sol.draw(r, dr, names);
+      int k = 1 + r.below(3);
+      for (int i = 0; i < k; i++) {
+        const std::string& n = names[(size_t)r.below((int)names.size())];
+        switch (orc::delta_kind_of(sol, n)) {
+          case 1: changes.push_back({n, dr.v[n]}); break;
+          case 2: changes.push_back({n, setv[n] * r.uni(-1.0L, 1.0L)}); break;
+          case 3: changes.push_back({n, setv[n] * r.uni(1.0L, 1.5L)}); break;
+          default: break;
+        }
+      }
+      LOG.count("incremental_cases(1-3 parameters changed)", 1);
+    } else if (kind == 2) {
+      set_ctx("init_param:" + sol.name, "masa_init_param<" + P + ">()");
+      CAP.begin();
+      masa_init_param<S>();
+      CAP.end();
+      for (auto& n : names) {
+        S v = masa_get_param<S>(n);
+        setv[n] = (long double)v; base.P[n] = EQ::exact((orc::Q)v);
+        if (dl_compare) masa_set_param<long double>(n, (long double)v);
+        if (!defv.empty() && !biteq((S)defv[n], v))
+          viol_once("C11", "init_param-restore:" + sol.name + ":" + n, "masa_init_param did not restore the value the parameter had right after masa_init",
+                    JObj().str("solution", sol.name).str("parameter", n).num("after_init", defv[n]).num("after_init_param", (long double)v).done());
+      }
+      LOG.count("default_parameter_cases(masa_init_param)", 1);
+    } else {
+      int k = 1 + r.below(3);
+      for (int i = 0; i < k; i++) {
+        const std::string& n = names[(size_t)r.below((int)names.size())];
+        if (orc::delta_kind_of(sol, n) == 1) changes.push_back({n, defv[n]});
+      }
+      LOG.count("partial_default_cases", 1);
+    }
+    std::set<long double> seen;
+    for (auto& ch : changes) {
+      const std::string& n = ch.first;
+      S val = (S)ch.second;
       masa_set_param<S>(n, val);
       if (dl_compare) masa_set_param<long double>(n, (long double)val);
       S back = masa_get_param<S>(n);
@@ -84,14 +136,26 @@ static void run_solution(const orc::Sol& sol, const SolSpec& spec, uint64_t seed
       base.P[n] = EQ::exact((orc::Q)val);   // the oracle evaluates for the value the user passed
       if (back == 0 || !seen.insert(fabsl((long double)back)).second) nontrivial = false;
     }
+    if (setv.size() != names.size()) harness_fail("parameter vector incomplete for " + sol.name);
     LOG.count("parameter_vectors", 1);
-    if (nontrivial) LOG.count("parameter_vectors_all_distinct_nonzero", 1);
+    if (kind == 0 || kind == 4) LOG.count("fresh_parameter_vectors", 1);
+    if (nontrivial && kind == 0) LOG.count("parameter_vectors_all_distinct_nonzero", 1);
+    // stretched magnitudes (for as long as any stretched value stays in the vector): judged at the semantic tolerance only; overflow to inf/NaN is counted, not judged
+    if (kind == 4) loose_state = true; else if (kind == 0 || kind == 2) loose_state = false;
+    const bool loose = loose_state;
     int cbk = r.below(orc::chem_ncb());
     for (int pt = 0; pt < npoints; pt++) {
       long double xs[4] = {0, 0, 0, 0};
       sol.point(r, xs, sol.nargs);
       // structured points: a coordinate exactly 0 (axes, t = 0) where the domain allows it
       if (sol.zero_coord_from >= 0 && r.below(6) == 0) { int ci = sol.zero_coord_from + r.below(std::max(1, sol.nargs - sol.zero_coord_from)); if (ci < sol.nargs) { xs[ci] = 0; LOG.count("points_on_an_axis", 1); } }
+      // a coordinate very close to (but not on) an axis: 10^-U(1,7), positive where the domain requires it
+      if (sol.zero_coord_from >= 0 && r.below(6) == 0) {
+        int ci = r.below(sol.nargs);
+        long double tiny = powl(10.0L, -r.uni(1.0L, 7.0L));
+        xs[ci] = (ci < sol.zero_coord_from || r.coin()) ? tiny : -tiny;
+        LOG.count("points_with_a_coordinate_near_zero", 1);
+      }
       if (pt == 0 && have_prev) for (int i = 0; i < 4; i++) xs[i] = prev_pt[i];   // same point, new parameters
       for (int i = 0; i < 4; i++) prev_pt[i] = xs[i];
       have_prev = true;
@@ -102,7 +166,10 @@ static void run_solution(const orc::Sol& sol, const SolSpec& spec, uint64_t seed
       sol.eval(c);
       if (c.near_branch) { g_skipped_branch++; continue; }
       std::map<std::string, long double> libvals;
-      for (int ei : evs) {
+      // evaluators in a fresh random order at every point (the first call after a parameter change is a different one each time)
+      std::vector<int> order = evs;
+      for (size_t i = order.size(); i > 1; i--) std::swap(order[i - 1], order[(size_t)r.below((int)i)]);
+      for (int ei : order) {
         const Ev& e = api()[ei];
         int dirs = (e.kind == KI) ? e.n : 1;
         if (e.kind == KI && sol.name == "navierstokes_4d_compressible_powerlaw") dirs = 3;  // spatial directions only
@@ -136,6 +203,7 @@ static void run_solution(const orc::Sol& sol, const SolSpec& spec, uint64_t seed
                 .num("library", ld(lib)).num("reference", (long double)ref.ref.v).num("abs_err", (long double)fabsq((orc::Q)lib - ref.ref.v))
                 .num("scale_e", scale).num("ratio_in_units_of_u_e", ratio).num("case", cs).raw("params", params_json(setv)).str("stdout", out.substr(0, 200)).done();
           };
+          if (!std::isfinite((long double)lib) && loose) { g_loose_overflow++; continue; }
           if (!std::isfinite((long double)lib)) {
             g_nonfinite++;
             viol_once("C09", "nonfinite:" + sol.name + ":" + e.id, "evaluator returned NaN/inf on admissible input", detail(-1));
@@ -148,7 +216,8 @@ static void run_solution(const orc::Sol& sol, const SolSpec& spec, uint64_t seed
           double ratio = scale > 0 ? err / (u * scale) : (err == 0 ? 0 : 1e300);
           // which model does the library agree with best: the governing operator, or a recorded deviation model?
           std::string matched_alt;
-          if (ratio > precK) {
+          const double precK_here = loose ? SEM_K : precK;
+          if (ratio > precK_here) {
             double best = ratio;
             for (auto& al_ : ref.alts) {
               double sc2 = std::max(std::max(al_.ref.e, orc::absd(al_.ref.v)), scale);
@@ -170,12 +239,12 @@ static void run_solution(const orc::Sol& sol, const SolSpec& spec, uint64_t seed
           MaxStat& ms = g_ratio[sol.name + "|" + e.id + "|" + Eps<S>::tag];
           ms.n++;
           if (ratio > ms.max) { ms.max = ratio; }
-          if (ratio > precK) {
+          if (ratio > precK_here) {
             viol_once("C09", "precision:" + sol.name + ":" + e.id + ":" + Eps<S>::tag, "error exceeds the working-precision bound K*u*e", detail(ratio));
             // "within floating-point roundoff ... in both scalar types" is part of the statement of C01-C07 as well
             viol_once(semprop, "roundoff-exceeded:" + sol.name + ":" + e.id + ":" + Eps<S>::tag, "value agrees with the reference only to " + std::to_string(ratio) + " u e (bound " + std::to_string(precK) + ")", detail(ratio));
           }
-          if (dl_compare) {
+          if (dl_compare && !loose) {
             long double libl = call_ev<long double>(e, al, dir, cb<long double>(cbk));
             double dd = (double)fabsl((long double)lib - libl);
             double r3 = scale > 0 ? dd / (0x1p-53 * scale) : (dd == 0 ? 0 : 1e300);
@@ -185,26 +254,37 @@ static void run_solution(const orc::Sol& sol, const SolSpec& spec, uint64_t seed
             if (r3 > 2 * PREC_K_D && matched_alt.empty())
               viol_once("C09", "double-vs-longdouble:" + sol.name + ":" + e.id, "double and long double interfaces disagree beyond double precision", detail(r3));
           }
-          if (e.kind != KF && cls == "grad" && fd_check) {
+          if (e.kind != KF && cls == "grad" && fd_check && !loose) {
             int exi = ev_index("exact_" + e.name.substr(5) + "/S" + std::to_string(e.n));
             if (exi >= 0 && spec.prov.count(api()[exi].id)) {
               const Ev& ex = api()[exi];
-              const long double h = 0.002L;
               static const long double cf[4] = {4.0L / 5, -1.0L / 5, 4.0L / 105, -1.0L / 280};
-              long double acc = 0;
               int var = (e.kind == KI) ? dir - 1 : 0;
-              for (int k = 1; k <= 4; k++) {
-                S ap[4], am[4];
-                for (int i = 0; i < 4; i++) ap[i] = am[i] = a[i];
-                ap[var] = (S)((long double)a[var] + k * h); am[var] = (S)((long double)a[var] - k * h);
-                long double hh = (long double)ap[var] - (long double)am[var];   // the step actually taken
-                CAP.begin();
-                long double fp_ = (long double)call_ev<S>(ex, ap, 0, nullptr), fm_ = (long double)call_ev<S>(ex, am, 0, nullptr);
-                CAP.end();
-                acc += cf[k - 1] * (fp_ - fm_) / (hh / (2 * k)) ;
-              }
+              long double fmax = 0;
+              // 8th-order central difference at two steps; the comparison is judged only where the two agree (the step must resolve the
+              // shortest local wavelength: a_px = 388.8 in the euler_3d defaults), otherwise it is counted as inconclusive
+              auto stencil = [&](long double h) {
+                long double acc = 0;
+                for (int k = 1; k <= 4; k++) {
+                  S ap[4], am[4];
+                  for (int i = 0; i < 4; i++) ap[i] = am[i] = a[i];
+                  ap[var] = (S)((long double)a[var] + k * h); am[var] = (S)((long double)a[var] - k * h);
+                  long double hh = (long double)ap[var] - (long double)am[var];   // the step actually taken
+                  CAP.begin();
+                  long double fp_ = (long double)call_ev<S>(ex, ap, 0, nullptr), fm_ = (long double)call_ev<S>(ex, am, 0, nullptr);
+                  CAP.end();
+                  fmax = std::max(fmax, std::max(fabsl(fp_), fabsl(fm_)));
+                  acc += cf[k - 1] * (fp_ - fm_) / (hh / (2 * k));
+                }
+                return acc;
+              };
+              const long double h = 0.0005L;
+              long double acc_coarse = stencil(0.002L), acc = stencil(h);
               g_fd++;
-              double fdtol = (sizeof(S) == 8 ? 2e-7 : 2e-9) * scale;
+              // truncation (relative to the gradient's own scale) + roundoff of the stencil (relative to the size of the field values / step)
+              double fdtol = (sizeof(S) == 8 ? 2e-7 : 2e-9) * scale + 16 * u * (double)fmax / (double)h;
+              if ((double)fabsl(acc - acc_coarse) > fdtol / 4) { g_fd_inconclusive++; g_fd--; }
+              else
               if ((double)fabsl(acc - (long double)lib) > fdtol)
                 viol_once("C07", "grad-vs-fd-of-exact:" + sol.name + ":" + e.id, "gradient differs from the finite-difference derivative of the API's own exact field",
                           JObj().str("solution", sol.name).str("evaluator", rid).str("precision", P).num("gradient", ld(lib)).num("fd_of_exact", acc).num("tol", fdtol).raw("point", point_json(xs, sol.nargs)).raw("params", params_json(setv)).done());
@@ -290,10 +370,12 @@ int main(int argc, char** argv) {
   LOG.count("double_vs_longdouble_comparisons", g_dlcmp);
   LOG.count("bad_index_calls", g_badidx);
   LOG.count("gradient_vs_fd_of_exact_checks", g_fd);
+  LOG.count("gradient_vs_fd_inconclusive(step does not resolve the field)", g_fd_inconclusive);
   LOG.count("callback_argument_checks", g_cbchecks);
   LOG.count("mass_sum_invariant_checks", g_invchecks);
   LOG.count("skipped_near_branch", g_skipped_branch);
   LOG.count("skipped_reference_not_finite", g_ref_nonfinite);
+  LOG.count("skipped_overflow_in_stretched_case", g_loose_overflow);
   LOG.count("nonfinite", g_nonfinite);
   LOG.count("matched_known_deviation", g_known);
   for (auto& kv : g_ratio) LOG.stat("ratio", JObj().str("k", kv.first).num("max", kv.second.max).num("n", kv.second.n).done());
